@@ -87,6 +87,30 @@ class SymMk:
         self.decls.append(("times", name, a))
         return a
 
+    def intseries(self, name, n):
+        a = sym_arr(name, n, "i", nan=False)
+        a.is_input = True
+        self.decls.append(("intseries", name, a))
+        return a
+
+    def dtseries(self, name, n):
+        """datetime64[ns] values (whole seconds), unordered, NaT allowed"""
+        fs = z3.Function(name + "_sec", z3.IntSort(), z3.IntSort())
+        fn = z3.Function(name + "_nat", z3.IntSort(), z3.BoolSort())
+        self.ctx.index_funcs.extend([fs, fn])
+        a = Arr(n, "M", lambda i: (fn(alg.lift(i)), alg.mul(fs(alg.lift(i)), 10**9)), "ns", name)
+        a.is_input = True
+        a.fsec, a.fnat = fs, fn
+        self.decls.append(("dtseries", name, a))
+        return a
+
+    def dt(self, name):
+        """a datetime64[ns] scalar on a whole second"""
+        s_ = z3.Int(name)
+        v = SNum(alg.mul(s_, 10**9), False, "M", "ns")
+        self.decls.append(("dt", name, s_))
+        return v
+
     def assume(self, f):
         f = alg.lift(f)
         self.requires.append(f)
@@ -145,6 +169,21 @@ class ConcMk:
         a.secs = list(secs)
         return a
 
+    def intseries(self, name, n):
+        a = from_values([int(v) for v in self.values[name]], "i")
+        a.is_input = True
+        a.name = name
+        return a
+
+    def dtseries(self, name, n):
+        a = from_values([None if v is None else int(v) * 10**9 for v in self.values[name]], "M", "ns")
+        a.is_input = True
+        a.name = name
+        return a
+
+    def dt(self, name):
+        return SNum(int(self.values[name]) * 10**9, False, "M", "ns")
+
     def assume(self, f):
         if alg.is_sym(f):
             f = alg.as_concrete(f)
@@ -188,6 +227,21 @@ class RealMk:
 
         return np.array([int(s) * 10**9 for s in self.values[name]], dtype="datetime64[ns]")
 
+    def intseries(self, name, n):
+        import numpy as np
+
+        return np.array([int(v) for v in self.values[name]], dtype=np.int64)
+
+    def dtseries(self, name, n):
+        import numpy as np
+
+        return np.array(["NaT" if v is None else int(v) * 10**9 for v in self.values[name]], dtype="datetime64[ns]")
+
+    def dt(self, name):
+        import numpy as np
+
+        return np.datetime64(int(self.values[name]) * 10**9, "ns")
+
     def assume(self, f):
         pass
 
@@ -201,6 +255,8 @@ class Res:
 
     def __init__(self, value):
         self.value = value
+        self.stats = None
+        self.path = None
         if isinstance(value, MArr):
             self.data, self.maskarr = value._data, value._mask
         elif isinstance(value, Arr):
@@ -419,6 +475,14 @@ def _extract_model(model, mk, bound_n=None):
         elif kind == "times":
             n = ev(obj.n)
             vals[name] = [ev(obj.fsec(z3.IntVal(i))) for i in range(n)]
+        elif kind == "intseries":
+            n = ev(obj.n)
+            vals[name] = [ev(obj.fv(z3.IntVal(i))) for i in range(n)]
+        elif kind == "dtseries":
+            n = ev(obj.n)
+            vals[name] = [None if ev(obj.fnat(z3.IntVal(i))) else ev(obj.fsec(z3.IntVal(i))) for i in range(n)]
+        elif kind == "dt":
+            vals[name] = ev(obj)
         elif kind in ("real", "int"):
             vals[name] = ev(obj.val)
         elif kind == "bool":
@@ -657,6 +721,7 @@ def verify_case(T, case, timeout_ms=None, want=None, exclude=None):
     for p in rets:
         penv = p.env[0]
         res = Res(p.value)
+        res.stats, res.path = p.stats, p
         glob = case.post_global(penv, res)
         for nm, f in glob.items():
             short = "post." + nm
